@@ -142,6 +142,25 @@ def exercise(ctx, u, case, sig):
     ok, v = call(lambda: u / "seg ment")
     if not ok and not allowed(v):
         ctx.fail("exception_type", dict(case, at="div"), f"/ raised {type(v).__name__}: {v}")
+    # restored copies are URLs like any other: every pickle protocol, copy and deepcopy, then the same reads
+    import copy
+    import pickle
+
+    for cname, mk in [(f"pickle{pr}", (lambda pr=pr: pickle.loads(pickle.dumps(u, protocol=pr)))) for pr in range(pickle.HIGHEST_PROTOCOL + 1)] + [("copy", lambda: copy.copy(u)), ("deepcopy", lambda: copy.deepcopy(u))]:
+        okc, cu = call(mk)
+        n += 1
+        if not okc:
+            if not allowed(cu):
+                ctx.fail("exception_type", dict(case, at=cname), f"{cname} raised {type(cu).__name__}: {cu}")
+            continue
+        for a in ("__str__", "host", "port", "path", "query_string", "human_repr", "__hash__", "parent"):
+            ok, v = call(lambda: getattr(cu, a)() if a.startswith("__") or a == "human_repr" else getattr(cu, a))
+            if not ok and not allowed(v):
+                ctx.fail("exception_type", dict(case, at=f"{cname}.{a}"), f"{a} of a {cname} copy raised {type(v).__name__}: {v}")
+                break
+            if not ok and a == "__str__" and ok_self:
+                ctx.fail("returned_object_unrenderable", dict(case, at=cname), f"str() of a {cname} copy raised {type(v).__name__}: {v}")
+                break
     ctx.ev(sig, n=n)
     ctx.count("urls_exercised")
 
